@@ -7,7 +7,9 @@ func (e *BinaryOpExpr) Check(ctx *CheckCtx) error {
 	if err := e.Right.Check(ctx); err != nil {
 		return err
 	}
-	e.tryRewriteExpr(ctx)
+	if err := e.tryRewriteExpr(ctx); err != nil {
+		return err
+	}
 	switch e.Op {
 	case And, Or:
 		return e.checkWithAndOr(ctx)
@@ -24,10 +26,53 @@ func (e *BinaryOpExpr) Check(ctx *CheckCtx) error {
 	}
 }
 
-func (e *BinaryOpExpr) tryRewriteExpr(ctx *CheckCtx) {
+// definitionContains reports whether target occurs in the expression def, looking through
+// operands, arguments and the field references already resolved in def.
+func definitionContains(def Expression, target Expression) bool {
+	if def == target {
+		return true
+	}
+	switch x := def.(type) {
+	case *BinaryOpExpr:
+		return definitionContains(x.Left, target) || definitionContains(x.Right, target)
+	case *NotExpr:
+		return definitionContains(x.Right, target)
+	case *FieldReferenceExpr:
+		return definitionContains(x.FieldExpr, target)
+	case *FieldAccessExpr:
+		return definitionContains(x.Left, target) || definitionContains(x.FieldName, target)
+	case *FunctionCallExpr:
+		for _, arg := range x.Args {
+			if definitionContains(arg, target) {
+				return true
+			}
+		}
+	case *ListExpr:
+		for _, item := range x.List {
+			if definitionContains(item, target) {
+				return true
+			}
+		}
+	}
+	return false
+}
+
+// checkFieldReference rejects a reference to the select field name from inside the expression
+// within when that field's own definition contains within: evaluating such a field would never end.
+func checkFieldReference(name *NameExpr, def Expression, within Expression) error {
+	if definitionContains(def, within) {
+		return NewSyntaxError(name.Pos, "field %s is defined in terms of itself", name.Data)
+	}
+	return nil
+}
+
+func (e *BinaryOpExpr) tryRewriteExpr(ctx *CheckCtx) error {
 	switch lexp := e.Left.(type) {
 	case *NameExpr:
 		if nexpr, have := ctx.GetNamedExpr(lexp.Data); have {
+			if err := checkFieldReference(lexp, nexpr, e); err != nil {
+				return err
+			}
 			e.Left = &FieldReferenceExpr{
 				Name:      lexp,
 				FieldExpr: nexpr,
@@ -37,12 +82,16 @@ func (e *BinaryOpExpr) tryRewriteExpr(ctx *CheckCtx) {
 	switch rexp := e.Right.(type) {
 	case *NameExpr:
 		if nexpr, have := ctx.GetNamedExpr(rexp.Data); have {
+			if err := checkFieldReference(rexp, nexpr, e); err != nil {
+				return err
+			}
 			e.Right = &FieldReferenceExpr{
 				Name:      rexp,
 				FieldExpr: nexpr,
 			}
 		}
 	}
+	return nil
 }
 
 func (e *BinaryOpExpr) checkWithAndOr(ctx *CheckCtx) error {
@@ -255,8 +304,11 @@ func (e *FunctionCallExpr) Check(ctx *CheckCtx) error {
 		return NewSyntaxError(e.Name.GetPos(), "Invalid function name")
 	}
 	if len(e.Args) > 0 {
-		for i, a := range e.Args {
-			a = e.tryRewriteExpr(i, ctx)
+		for i := range e.Args {
+			a, err := e.tryRewriteExpr(i, ctx)
+			if err != nil {
+				return err
+			}
 			if err := a.Check(ctx); err != nil {
 				return err
 			}
@@ -265,20 +317,23 @@ func (e *FunctionCallExpr) Check(ctx *CheckCtx) error {
 	return nil
 }
 
-func (e *FunctionCallExpr) tryRewriteExpr(idx int, ctx *CheckCtx) Expression {
+func (e *FunctionCallExpr) tryRewriteExpr(idx int, ctx *CheckCtx) (Expression, error) {
 	ret := e.Args[idx]
 	switch aexp := ret.(type) {
 	case *NameExpr:
 		if nexpr, have := ctx.GetNamedExpr(aexp.Data); have {
+			if err := checkFieldReference(aexp, nexpr, e); err != nil {
+				return nil, err
+			}
 			narg := &FieldReferenceExpr{
 				Name:      aexp,
 				FieldExpr: nexpr,
 			}
 			e.Args[idx] = narg
-			return narg
+			return narg, nil
 		}
 	}
-	return ret
+	return ret, nil
 }
 
 func (e *NameExpr) Check(ctx *CheckCtx) error {
